@@ -219,7 +219,7 @@ M("c14_pong_on_pong", ["C14"],
    "        elif event.name == 'pong':\n            self._on_pong(event)\n            self._send_pong(event)"))
 M("c14_auto_pong_ignored", ["C14"],
   ("lomond/session.py", "            if auto_pong:\n                self._send_pong(event)", "            if True:\n                self._send_pong(event)"))
-M("c14_pong_error_propagates", ["C14", "C09"],
+M("c14_pong_error_propagates", ["C14"],
   ("lomond/session.py", "            self.websocket.send_pong(event.data)\n        except errors.WebSocketError:",
    "            self.websocket.send_pong(event.data)\n        except errors.WebSocketClosing:"))
 M("c14_pong_only_first_ping_per_read", ["C14"],
@@ -228,3 +228,53 @@ M("c14_pong_only_first_ping_per_read", ["C14"],
 M("c14_pong_while_closing_raises_to_loop", ["C14"],
   ("lomond/session.py", "        except errors.WebSocketError:\n            # In case the websocket has gone away\n            pass",
    "        except errors.TransportFail:\n            # In case the websocket has gone away\n            pass"))
+
+# ---- C09 -----------------------------------------------------------------
+M("c09_recv_error_not_translated", ["C09"],
+  ("lomond/session.py", "        except socket.error as error:\n            log.debug('error in _recv', exc_info=True)",
+   "        except socket.timeout as error:\n            log.debug('error in _recv', exc_info=True)"),
+  equivalent=True)   # the catch-all in run() still turns it into a non-graceful Disconnected
+M("c09_is_active_inverted", ["C09"],
+  ("lomond/session.py", "                        if websocket.is_active:\n                            self._socket_fail('connection lost')",
+   "                        if not websocket.is_active:\n                            self._socket_fail('connection lost')"))
+M("c09_address_loop_breaks", ["C09"],
+  ("lomond/session.py", "                log.debug('socket error connecting to %r; %s', sa, error)\n                sock.close()\n                sock = None\n                continue",
+   "                log.debug('socket error connecting to %r; %s', sa, error)\n                sock.close()\n                sock = None\n                break"))
+M("c09_no_catch_all", ["C09"],
+  ("lomond/session.py", "        except Exception as error:  # pragma: no cover\n            # It pays to be paranoid.",
+   "        except ZeroDivisionError as error:  # pragma: no cover\n            # It pays to be paranoid."))
+M("c09_write_lets_exceptions_through", ["C09"],
+  ("lomond/session.py", "            except Exception as error:\n                log.warning('WebSocket send error; %s', error)",
+   "            except ZeroDivisionError as error:\n                log.warning('WebSocket send error; %s', error)"))
+M("c09_socket_kept_on_socket_fail", ["C09"],
+  ("lomond/session.py", "            # exception. The result is we are disconnected.\n            self._close_socket()", "            # exception. The result is we are disconnected.\n            pass"))
+M("c09_connect_non_socket_error_escapes", ["C09"],
+  ("lomond/session.py", "        except Exception as error:\n            log.error('error connecting to %s; %s', url, error)\n            yield events.ConnectFail('{}'.format(error))\n            return",
+   "        except ZeroDivisionError as error:\n            log.error('error connecting to %s; %s', url, error)\n            yield events.ConnectFail('{}'.format(error))\n            return"))
+M("c09_request_failure_leaves_socket", ["C09"],
+  ("lomond/session.py", "        except errors.WebSocketError as error:\n            self._close_socket()\n            yield events.ConnectFail('request failed",
+   "        except errors.WebSocketError as error:\n            yield events.ConnectFail('request failed"))
+M("c09_eof_mid_handshake_is_graceful", ["C09"],
+  ("lomond/session.py", "                        if websocket.is_active:\n                            self._socket_fail('connection lost')",
+   "                        if websocket.is_active and self._ready:\n                            self._socket_fail('connection lost')"))
+M("c09_ping_failure_propagates", ["C09"],
+  ("lomond/session.py", "                self.websocket.send_ping()\n            except errors.WebSocketError:\n                pass",
+   "                self.websocket.send_ping()\n            except errors.WebSocketUnavailable:\n                pass"),
+  equivalent=True)   # ends as a non-graceful Disconnected via the catch-all: allowed by the statement
+
+# ---- C13 -----------------------------------------------------------------
+M("c13_no_generator_exit_handler", ["C13"],
+  ("lomond/websocket.py", "        except GeneratorExit:\n            # The generator has exited prematurely, due to an exception\n            # handling the event.\n            log.warning('disconnecting websocket')\n            self.on_disconnect()",
+   "        except GeneratorExit:\n            # The generator has exited prematurely, due to an exception\n            # handling the event.\n            log.warning('disconnecting websocket')\n            self.on_disconnect()\n            raise"),
+  equivalent=True)
+M("c13_no_selector_close", ["C13"],
+  ("lomond/session.py", "            self._close_socket()\n            selector.close()", "            self._close_socket()"))
+M("c13_revert_fix_finally", ["C13"],
+  ("lomond/session.py", "            # A no-op unless the consumer abandoned the generator\n            self._close_socket()\n", ""))
+M("c13_revert_fix_connected", ["C13"],
+  ("lomond/session.py", "        except GeneratorExit:\n            # The consumer stopped iterating, don't leak the socket\n            self._close_socket()\n            raise",
+   "        except GeneratorExit:\n            raise"))
+M("c13_close_only_if_ready", ["C13"],
+  ("lomond/session.py", "            # A no-op unless the consumer abandoned the generator\n            self._close_socket()\n",
+   "            # A no-op unless the consumer abandoned the generator\n            if self._ready:\n                self._close_socket()\n"),
+  equivalent=True)   # before Ready every in-loop event is yielded from feed(), whose GeneratorExit handler closes the socket
